@@ -155,8 +155,6 @@ def materialize(scenario, directory, layout=None, structure=None, config_methods
     layout = layout or default_layout()
     rows = {a: sheet_rows(txs, a, layout, (structure or {}).get(a)) for a, txs in scenario["assets"].items()}
     ini, ods = os.path.join(directory, "config.ini"), os.path.join(directory, "input.ods")
-    hs = sorted({t[k] for txs in scenario["assets"].values() for t in txs for k in ("ho", "to_ho") if k in t} | set(HOLDERS))
-    xs = sorted({t[k] for txs in scenario["assets"].values() for t in txs for k in ("ex", "to_ex") if k in t} | set(EXCHANGES))
-    write_ini(ini, scenario.get("config_assets", sorted(scenario["assets"])), layout, config_methods, holders=hs, exchanges=xs)
+    write_ini(ini, scenario.get("config_assets", sorted(scenario["assets"])), layout, config_methods, holders=scenario.get("holders"), exchanges=scenario.get("exchanges"))
     write_ods(ods, rows)
     return ini, ods
